@@ -147,8 +147,15 @@ def run_build(case):
     if b is None or len(_BUILDERS) > 64:
         b = _BUILDERS[key] = BinaryPayloadBuilder(byteorder=bo, wordorder=wo, repack=bool(case.get('repack')))
     b.reset()
+    peek = case.get('peek')
     try:
-        for v in vals:
+        for nv, v in enumerate(vals):
+            if peek and peek[0] == nv:
+                # the application looks at the payload built so far (and goes on adding): an observer changes nothing
+                try:
+                    getattr(b, peek[1])()
+                except Exception:  # noqa
+                    pass
             arg = py_of(v)
             if v[0] == 'bits':
                 b.add_bits(arg)
@@ -181,6 +188,13 @@ def run_build(case):
     except Exception as e:  # noqa
         out['coils'] = {'err': errkind(e)}
         out['dec_coils'] = [{'err': errkind(e)}]
+    try:
+        b.build()
+        after = list(b.to_string())
+    except Exception as e:  # noqa
+        after = {'err': errkind(e)}
+    if after != out['bytes']:
+        out['impure'] = after        # to_registers() / to_coils() / build() changed what the builder holds
     return out
 
 
@@ -300,6 +314,8 @@ def gen_build_case(rng, maxlen):
     case = {'kind': 'build', 'bo': bo, 'wo': wo, 'values': vals}
     if rng.random() < 0.1:
         case['repack'] = True
+    if vals and rng.random() < 0.3:
+        case['peek'] = [rng.randrange(len(vals)), rng.choice(['build', 'to_registers', 'to_coils', 'to_string'])]
     return case
 
 
@@ -381,6 +397,9 @@ def check_build_cases(ctx, rep, cases):
         if not built:
             rep.violation('the builder raised on in-range values', case, impl=real['bytes'])
             continue
+        if 'impure' in real:
+            rep.violation('reading the payload out (to_registers / to_coils / build) changed what the builder holds', case,
+                          before=real['bytes'][:60], after=real['impure'][:60] if isinstance(real['impure'], list) else real['impure'])
         if real['bytes'] != ans['spec_bytes']:
             rep.violation('the built byte string is not the conventional image for this byte/word order', case,
                           impl=real['bytes'], spec=ans['spec_bytes'])
